@@ -463,6 +463,8 @@ class UserInfoSitesTask(FiniteTask):
             for n in ast.walk(fi.node):
                 if isinstance(n, ast.Assign) and any(isinstance(t, ast.Attribute) and t.attr == "_user_info" for t in n.targets):
                     writers.append(mn)
+                if isinstance(n, ast.AnnAssign) and n.value is not None and isinstance(n.target, ast.Attribute) and n.target.attr == "_user_info":
+                    writers.append(mn)
                 if isinstance(n, ast.Call) and isinstance(n.func, ast.Attribute) and n.func.attr in ("append", "remove", "extend", "insert", "pop", "clear") \
                         and isinstance(n.func.value, ast.Attribute) and n.func.value.attr == "_user_info":
                     writers.append(mn)
@@ -470,10 +472,17 @@ class UserInfoSitesTask(FiniteTask):
              sorted(set(writers)) == sorted(["__init__", "maximum_length.fset", "implementation_class_uid.fset", "implementation_version_name.fset"]),
              detail=str(sorted(set(writers))))
         init = ci.methods["__init__"].node
-        src = ast.unparse(init)
-        emit("C12/frame/ServiceUser.__init__-sets-the-maximum-length-and-the-implementation-class-uid",
-             "self._user_info: list[_UI] = []" in src and "self.maximum_length" in src and "self.implementation_class_uid" in src
-             and src.index("self._user_info") < src.index("self.maximum_length =") < src.index("self.implementation_class_uid ="))
+        # top-level statements of __init__, in order: `_user_info` is initialised to an empty list, then both mandatory setters run
+        order = []
+        for st in init.body:
+            tg = st.targets if isinstance(st, ast.Assign) else ([st.target] if isinstance(st, ast.AnnAssign) else [])
+            for t in tg:
+                if isinstance(t, ast.Attribute) and isinstance(t.value, ast.Name) and t.value.id == "self":
+                    order.append((t.attr, ast.unparse(st.value) if st.value is not None else None))
+        names = [a for a, _v in order]
+        ok = ("_user_info", "[]") in order and "maximum_length" in names and "implementation_class_uid" in names and \
+            names.index("_user_info") < names.index("maximum_length") and names.index("_user_info") < names.index("implementation_class_uid")
+        emit("C12/frame/ServiceUser.__init__-sets-the-maximum-length-and-the-implementation-class-uid", ok, detail=str(order)[:300])
         reset = ast.unparse(ci.methods["reset_negotiation_items"].node)
         kinds = [k for k in ("MaximumLengthNotification", "ImplementationClassUIDNotification") if k in reset]
         emit("C12/frame/the-extended-negotiation-store-has-no-slot-for-the-mandatory-items", not kinds, detail=reset[:200])
